@@ -629,7 +629,7 @@ def reassign_records(seed, wd, select=None, only=None, nprocs=None):
                     ids = RS_SELS[sel][RS_TOPS[tname]]
                     trjfiles.append([])
                     for t, l in enumerate(lens):
-                        f = os.path.join(sd, "g%d_t%d.%s" % (g, t, "xtc"))
+                        f = os.path.join(sd, "g%d_t%d.xtc" % (g, t))
                         md.Trajectory(rng.rand(l, top.n_atoms, 3).astype(np.float32), top).save(f)
                         trjfiles[-1].append(f)
                         # what is on disk (xtc is lossy), restricted to this group's atoms
@@ -676,6 +676,54 @@ def reassign_records(seed, wd, select=None, only=None, nprocs=None):
         else:
             os.environ["OMP_NUM_THREADS"] = real_omp
     return recs
+
+
+RS_NPROCS2 = 20      # thorough: every RS_NPROCS2-th scenario once more with two loader processes (joblib/loky pool)
+
+
+def _md_child(seed, tier, wd, out):
+    """Body of the background process that records the mdtraj-based traces while TLC runs (reassign and
+    batch_reassign start process pools, so this cannot be a pool worker).  Writes {"recs": [...]} or
+    {"error": traceback} as JSON to `out`."""
+    import traceback
+    os.environ["OMP_NUM_THREADS"] = "1"     # md.rmsd with one thread per core on a shared machine is ~10x slower
+    try:
+        recs = reassign_records(seed, os.path.join(wd, "rs"), select=_rs_quick if tier == "quick" else None)
+        if tier == "quick":
+            recs += mdtraj_records(seed, os.path.join(wd, "md"), scenarios=MD_QUICK)
+        else:
+            recs += reassign_records(seed, os.path.join(wd, "rs2"), nprocs=2,
+                                     select=lambda sc: sc["scenario"] % RS_NPROCS2 == 7)
+        res = {"recs": recs}
+    except BaseException:
+        res = {"error": traceback.format_exc()}
+    with open(out + ".tmp", "w") as fh:
+        json.dump(res, fh)
+    os.replace(out + ".tmp", out)
+
+
+def start_md_child(seed, tier):
+    import multiprocessing as mp
+    wd = core.scratch("ev_c10md_")
+    for sub in ("rs", "rs2", "md"):
+        os.makedirs(os.path.join(wd, sub))
+    out = os.path.join(wd, "records.json")
+    p = mp.get_context("fork").Process(target=_md_child, args=(seed, tier, wd, out))
+    p.start()
+    return p, out
+
+
+def join_md_child(p, out, timeout):
+    p.join(timeout)
+    if p.is_alive():
+        p.kill()
+        raise core.MachineryError("the mdtraj trace recorder did not finish within %d s" % timeout)
+    if not os.path.exists(out):
+        raise core.MachineryError("the mdtraj trace recorder died (exit code %s)" % p.exitcode)
+    res = json.load(open(out))
+    if "error" in res:
+        raise core.MachineryError("the mdtraj trace recorder crashed:\n%s" % res["error"])
+    return res["recs"]
 
 
 # ---------------------------------------------------------------------------
@@ -816,8 +864,12 @@ def run(ctx):
         "partition_indices and are outside the property",
         "compute_batches is called with batch_size >= max(lengths) (the guard of batch_reassign)",
         "find_cluster_centers is replayed with ndarray arguments (a plain list of labels is not supported by the code)",
-        "RMSD (batch_reassign, md.Trajectory containers) is not a lattice metric: judged against a recorded "
-        "md.rmsd table scaled 1e5 with a 1e-3 nm budget (thorough tier only)",
+        "RMSD (reassign, batch_reassign, md.Trajectory containers) is not a lattice metric: judged against a "
+        "recorded md.rmsd table scaled 1e5 with a 1e-3 nm budget",
+        "reassign(topologies, trajectories, atoms, centers): the distance of a frame to a centre is md.rmsd of the "
+        "frame restricted to the atoms selected for its own group (topology order) to the centre; all selections "
+        "denote the same number of atoms (what the centres carry); centres are handed over as fresh copies "
+        "(reassign centres them in place, which RMSD does not see)",
     ]
     b = core.build_repo()
     core.activate(b)
@@ -827,6 +879,8 @@ def run(ctx):
     report = Reporter(ctx)
     thorough = ctx.tier == "thorough"
     to = 2400 if thorough else 600
+    # file-based reassignment on small generated trajectories: recorded in a background process while TLC runs
+    md_child = start_md_child(ctx.seed, ctx.tier)
 
     jobs, roles = [], []
 
@@ -989,12 +1043,18 @@ def run(ctx):
         ctx.notes["random_data_sets"] = n_rand
         wd = core.scratch("ev_c10md_")
         md_recs = mdtraj_records(ctx.seed, wd)
-        ctx.notes["mdtraj_traces"] = len(md_recs)
         ctx.notes["mdtraj_batch_reassign_calls"] = sum(1 for r in md_recs if r["_gen"]["call"] == "batch_reassign")
+        md_recs += join_md_child(*md_child, timeout=1200)
+        ctx.notes["mdtraj_traces"] = len(md_recs)
+        ctx.notes["mdtraj_reassign_calls"] = sum(1 for r in md_recs if r["_gen"]["call"] == "reassign")
         judge_assign_traces(ctx, report, d, pred_recs + rand_recs + md_recs, "predict+random+mdtraj")
         ctx.exhaustive = False      # the random part is a sample
     else:
-        judge_assign_traces(ctx, report, d, pred_recs, "predict")
+        md_recs = join_md_child(*md_child, timeout=600)
+        ctx.notes["mdtraj_traces"] = len(md_recs)
+        ctx.notes["mdtraj_reassign_calls"] = sum(1 for r in md_recs if r["_gen"]["call"] == "reassign")
+        ctx.notes["mdtraj_batch_reassign_calls"] = sum(1 for r in md_recs if r["_gen"]["call"] == "batch_reassign")
+        judge_assign_traces(ctx, report, d, pred_recs + md_recs, "predict+mdtraj")
     phases["traces_B"] = round(time.time() - t0, 1)
     cpus["traces_B"] = round(cpu() - c0, 1)
     ctx.notes["phase_wall_s"] = phases
@@ -1035,6 +1095,10 @@ def replay(ctx, path):
                                 [predict_record(g["metric"], g["train"], g["k"], g["Y"], g["j"], g["ints"])], "replay")
         elif g["call"].startswith("assign_to_nearest_center+"):
             judge_assign_traces(ctx, report, d, random_record((g["seed"], g["j"]))[:1], "replay")
+        elif g["call"] == "reassign":
+            wd = core.scratch("ev_c10rs_")
+            judge_assign_traces(ctx, report, d, reassign_records(g["seed"], wd, only=g["scenario"],
+                                                                 nprocs=g.get("nprocs", 1)), "replay")
         else:
             wd = core.scratch("ev_c10md_")
             recs = [r for r in mdtraj_records(g["seed"], wd, only=g.get("scenario"))
